@@ -258,3 +258,20 @@ Proof. intros H. rewrite !name_hash_key. rewrite H. reflexivity. Qed.
 
 Corollary eq_hash a b : order a b = 0 -> name_hash a = name_hash b.
 Proof. intros H. apply hash_congr, eq_iff_ci, H. Qed.
+
+(* ------------------------------------------------------------------ *)
+(* the rich comparison operators                                        *)
+
+Theorem richcmp_spec a b :
+  (name_eqb a b = true <-> canon_cmp a b = Eq) /\
+  name_ne a b = negb (name_eqb a b) /\
+  (name_lt a b = true <-> canon_cmp a b = Lt) /\
+  (name_le a b = true <-> canon_cmp a b <> Gt) /\
+  (name_ge a b = true <-> canon_cmp a b <> Lt) /\
+  (name_gt a b = true <-> canon_cmp a b = Gt).
+Proof.
+  unfold name_eqb, name_ne, name_lt, name_le, name_ge, name_gt. rewrite <- order_spec.
+  rewrite Z.eqb_eq, Z.ltb_lt, Z.leb_le, Z.geb_le, Z.gtb_lt.
+  rewrite Z.compare_eq_iff, Z.compare_lt_iff, Z.compare_gt_iff.
+  repeat split; try lia; intros H; try lia.
+Qed.
